@@ -9,6 +9,11 @@
        "if (end < GetValidEnd()) return;"                                   pinned form, finding stale-reference
        "if (end < GetValidEnd()) extend = false;" + the own computation under "if (extend)" + Merge(.., .., !extend) with
        Merge cutting every segment off at valid_end when clip is set         (repo_patches/C08-merge-references-every-round.diff)
+   * what TimePeriod::Start does with the state attributes it finds (restored from the state file after a restart):
+       "doublenow=Utility::GetTime();UpdateRegion(now,now+24*3600,true);" - the only UpdateRegion call, clearExisting the
+       literal true, nothing conditional around it:                        today's form (the segments are dropped, valid_begin /
+                                                                            valid_end are kept: finding restart-keeps-valid-end)
+       the same preceded by "{ObjectLockolock(this);SetValidBegin(Empty);SetValidEnd(Empty);}"   (repo_patches/C08-start-resets-window.diff)
 A form that is not recognised is emitted as None: the model then takes the pinned branch and the theorem
 C08_source_forms_recognised stops compiling."""
 import re
@@ -104,4 +109,23 @@ def run(rd, emit, log, enum_values, ti_default):
     body += ('(* true = UpdateRegion merges the included / excluded periods (cut off at valid_end) also when valid_end already lies beyond the\n'
              '   requested end; false = it returns early in that case *)\n')
     body += 'Definition f_tp_merge_always : option bool := %s.\n' % ('Some ' + ma if ma else 'None')
+    # ---- TimePeriod::Start: clearExisting = true unconditionally; is the restored window dropped as well
+    sr = None
+    bs = fn_body(tsrc, r'void\s+TimePeriod::Start\s*\(')
+    if bs:
+        ss = re.sub(r'#ifdef_DEBUG.*?#endif', '', strip(bs))
+        call = 'doublenow=Utility::GetTime();UpdateRegion(now,now+24*3600,true);'
+        reset = '{ObjectLockolock(this);SetValidBegin(Empty);SetValidEnd(Empty);}'
+        tail_ok = ss.endswith(call) or ss.endswith(call + 'Dump();')
+        if (ss.count('UpdateRegion(') == 1 and call in ss and tail_ok and 'SetSegments' not in ss and 'GetSegments' not in ss
+                and 'GetValid' not in ss and 'if(' not in ss.split('l_UpdateTimer->Start();});', 1)[-1]):
+            if 'SetValid' not in ss:
+                sr = 'false'
+            elif reset + call in ss and ss.count('SetValidBegin(') == 1 and ss.count('SetValidEnd(') == 1:
+                sr = 'true'
+    if sr is None:
+        log.append('C08: TimePeriod::Start not recognised')
+    body += ('(* Some _ = TimePeriod::Start calls UpdateRegion(now, now + 24 h, true) exactly once and unconditionally (clearExisting is the\n'
+             '   literal true); true = it empties valid_begin / valid_end first, false = it keeps what was restored from the state file *)\n')
+    body += 'Definition f_tp_start_resets : option bool := %s.\n' % ('Some ' + sr if sr else 'None')
     emit('Facts_c08.v', body)
